@@ -214,6 +214,7 @@ func c06Run(c *Ctx) {
 		}
 	}
 	Flags{}.Apply()
+	c06GzipMembers(c, alpha)
 	// every line length up to past the reader's limit, five line shapes, on the real stream code
 	streamLenSweep(c, "C06", []string{"secret-pad", "keep-blanks", "keep-mixed", "fixed-point", "array-pad"}, Flags{})
 	switch c.Shard {
@@ -235,6 +236,63 @@ func c06Run(c *Ctx) {
 		c06CLI(c, alpha, cliLen, fl)
 	} else {
 		c06CLI(c, alpha[:5], cliLen, fl)
+	}
+}
+
+// c06GzipMembers: a .gz file may consist of several members (RFC 1952; what `cat a.gz b.gz` or a writer that
+// flushes by size produces), and a member may end anywhere.  For a four-line text in both line-end conventions, the
+// archive split into two members at EVERY byte offset, and into three members at every pair of offsets (quick: a
+// stride), must give the bytes the one-member archive gives.
+func c06GzipMembers(c *Ctx, alpha []c06Sym) {
+	for ei, eol := range []string{"\n", "\r\n"} {
+		text := c06Text([]string{alpha[0].Text, alpha[2].Text, alpha[7].Text, alpha[1].Text}, eol, ei == 0)
+		ref, err, pv := c06RunInproc(text, 4, "gzfile", "nobar")
+		if err != nil || pv != nil {
+			c.HarnessError("C06 gzip members: the one-member archive fails: %v %v", err, pv)
+			return
+		}
+		run := func(cuts ...int) {
+			var parts [][]byte
+			prev := 0
+			for _, k := range cuts {
+				parts = append(parts, []byte(text[prev:k]))
+				prev = k
+			}
+			parts = append(parts, []byte(text[prev:]))
+			var w bytes.Buffer
+			err := ProcessMongoLogFile(&c06FR{gzBytes(parts...), ".gz"}, "x.log.gz", &w, nil)
+			c.Eval(1)
+			if err != nil || w.String() != ref {
+				c.Violate("gzip-members:differs-from-one-member-archive", fmt.Sprintf("a %d-byte log stored as a gzip file whose members end at offsets %v: error %v, %d output lines instead of %d (the same bytes in one member)", len(text), cuts, err, strings.Count(w.String(), "\n"), strings.Count(ref, "\n")), int64(len(cuts)),
+					map[string]any{"kind": "gzip-members", "cuts": cuts, "eol": eol, "text": text}, nil)
+			}
+		}
+		var no int64
+		for k := 1; k < len(text); k++ {
+			no++
+			if !c.Mine(no) {
+				continue
+			}
+			run(k)
+			c.Distinct(fmt.Sprintf("gzmembers|%d|%d", ei, k))
+			stride := 29
+			if c.Thorough() {
+				stride = 3
+			}
+			for k2 := k + 1; k2 < len(text); k2 += stride {
+				run(k, k2)
+			}
+		}
+		// an empty member at either end and in the middle
+		if c.Shard == 0 {
+			for _, parts := range [][][]byte{{{}, []byte(text)}, {[]byte(text), {}}, {[]byte(text[:50]), {}, []byte(text[50:])}} {
+				var w bytes.Buffer
+				err := ProcessMongoLogFile(&c06FR{gzBytes(parts...), ".gz"}, "x.log.gz", &w, nil)
+				if err != nil || w.String() != ref {
+					c.Violate("gzip-members:empty-member", fmt.Sprintf("an archive with an empty member: error %v, %d output lines instead of %d", err, strings.Count(w.String(), "\n"), strings.Count(ref, "\n")), 0, map[string]any{"kind": "gzip-members-empty"}, nil)
+				}
+			}
+		}
 	}
 }
 
